@@ -176,7 +176,7 @@ def ignore_list_accumulates(prog: Program, rep, RID: str, name: str = "edges_to_
         seen_modes: Set[str] = set()
         for st in assigns:
             tests = enclosing_tests(init.node, st)
-            mode = [norm(t) for t, pol in tests if pol and "flow_attr_origin" in norm(t) or "cover_type" in norm(t)]
+            mode = [("" if pol else "not ") + norm(t) for t, pol in tests if "flow_attr_origin" in norm(t) or "cover_type" in norm(t)]
             refs_self = any(isinstance(x, ast.Name) and x.id == name for x in ast.walk(st.value))
             key = f"{cls.name}.__init__:{name}@{'/'.join(mode) or 'after-modes'}"
             n += 1
